@@ -394,6 +394,9 @@ func (c *Checker) CheckSource(sourceName string, source string) (compiler.Compil
 	methodScopesCopy := c.deepCopyMethodScopes(c.runtimeEnv, envCopy)
 	c.methodScopesCopyCache = nil
 	c.constantScopesCopyCache = nil
+	// the compiler of the last accepted input knows the local variables
+	// that live on the value stack of the REPL
+	prevCompiler := c.compiler
 
 	c.Filename = sourceName
 	c.methodBodyChecks = nil
@@ -409,6 +412,9 @@ func (c *Checker) CheckSource(sourceName string, source string) (compiler.Compil
 		c.localEnvs = localEnvsCopy
 		c.constantScopes = constantScopesCopy
 		c.methodScopes = methodScopesCopy
+		// drop the compilers created for the rejected input, the next input
+		// has to continue from the compiler of the last accepted one
+		c.compiler = prevCompiler
 	}
 
 	if compiler == nil {
